@@ -523,5 +523,17 @@ pub proof fn theorem_the_writer_reads_its_write(b: DHeap, w: Tid, own_before: Da
     }
     lemma_vars_sees_the_write(b, w, k, vars[k]);
 }
+// THEOREM (C07, the nearest-first read): under the same post V9, whatever scope Task::find ($get, output filling) reads the name from (post V6: the
+// first scope on the chain in which it is readable), the value it reads is the written one
+pub proof fn theorem_find_reads_the_write<T>(b: DHeap, w: Tid, vars: DataMap, k: Key, i: int)
+    requires
+        forall|j: int, kk: Key| vars.dom().contains(kk) && !is_private(kk) && #[trigger] declares(b.data, seq![w] + ancestors(w), kk, j) ==> b.data[(seq![w] + ancestors(w))[j]][kk] == vars[kk],
+        vars.dom().contains(k), !is_private(k),
+        first_readable::<T>(b, seq![w] + ancestors(w), k, i),
+    ensures value_as::<T>(b.data[(seq![w] + ancestors(w))[i]][k]) == value_as::<T>(vars[k])
+{
+    reveal(first_readable);
+    assert(declares(b.data, seq![w] + ancestors(w), k, i));
+}
 } // verus!
 fn main() {}
